@@ -105,6 +105,7 @@ def sendExt (R : Addr) (s : St) (frm to : Addr) (amt : Int) : Res :=
 /-- `SendCoins` restricted to ukava (passthrough `u`) and akava (`x`); both ≥ 0, not both 0
     is not required (an empty send succeeds). -/
 def send (R : Addr) (s : St) (frm to : Addr) (u x : Int) : Res :=
+  if frm = R ∨ to = R then .err else
   match sendIf (u > 0) s frm to u with
   | none => .err
   | some s1 => if x > 0 then sendExt R s1 frm to x else .ok s1
